@@ -174,7 +174,56 @@ func normalisingSwitches(w *World) []switchTable {
 			})
 		}
 	}
-	return out
+	// the same table written as a package-level map literal: map[string]string{"int8": "i8", ...}
+	for _, f := range mp.Syntax {
+		for _, d := range f.Decls {
+			gd, ok := d.(*ast.GenDecl)
+			if !ok {
+				continue
+			}
+			for _, sp := range gd.Specs {
+				vs, ok := sp.(*ast.ValueSpec)
+				if !ok || len(vs.Names) != 1 || len(vs.Values) != 1 {
+					continue
+				}
+				cl, ok := vs.Values[0].(*ast.CompositeLit)
+				if !ok {
+					continue
+				}
+				st := switchTable{fn: vs.Names[0].Name, cases: map[string]string{}}
+				for _, el := range cl.Elts {
+					kv, ok := el.(*ast.KeyValueExpr)
+					if !ok {
+						continue
+					}
+					k, v := mp.TypesInfo.Types[kv.Key], mp.TypesInfo.Types[kv.Value]
+					if k.Value != nil && k.Value.Kind() == constant.String && v.Value != nil && v.Value.Kind() == constant.String {
+						st.cases[constant.StringVal(k.Value)] = constant.StringVal(v.Value)
+					}
+				}
+				if len(st.cases) >= 4 {
+					out = append(out, st)
+				}
+			}
+		}
+	}
+	// only tables about type spellings: they name at least one alias spelling of the grammar
+	aliasSp := map[string]bool{}
+	for _, sp := range w.G4.Aliases() {
+		for _, s := range sp {
+			aliasSp[s] = true
+		}
+	}
+	var typed []switchTable
+	for _, st := range out {
+		for s := range st.cases {
+			if aliasSp[s] {
+				typed = append(typed, st)
+				break
+			}
+		}
+	}
+	return typed
 }
 
 func runC08(w *World, r *Report) {
@@ -182,8 +231,8 @@ func runC08(w *World, r *Report) {
 	// ---- 1. alias normalisation ----
 	const ruleAlias = "C08/alias-normalisation"
 	sws := normalisingSwitches(w)
-	if len(sws) < 2 {
-		r.fail(ruleAlias, "normalising switches found", "internal/model/model.go", fmt.Sprintf("expected the two type-normalising switches (getBasicType, Field.GetType), found %d", len(sws)))
+	if len(sws) < 1 {
+		r.fail(ruleAlias, "normalising tables found", "internal/model/model.go", "no switch or map literal in internal/model maps the grammar's alias spellings to one canonical name")
 	}
 	aliases := w.G4.Aliases()
 	for _, st := range sws {
@@ -227,7 +276,7 @@ func runC08(w *World, r *Report) {
 			}
 		}
 	}
-	r.floor(ruleAlias, 20)
+	r.floor(ruleAlias, 10)
 
 	// ---- 2. raw spelling confined ----
 	const ruleRaw = "C08/raw-type-confined"
